@@ -75,7 +75,7 @@ inductive CVal where
   deriving Repr, Inhabited
 
 /-- `short_string_storage::max_length` for `char`: (2*8 - 2)/1 - 1 -/
-def shortMax : Nat := 13
+abbrev shortMax : Nat := 13
 
 /-- `static_cast<int>(storage_kind())` -/
 def kind : CVal → Int
@@ -137,7 +137,7 @@ def natToDouble (n : Nat) : Nat :=
       let q := n / 2 ^ e
       let r := n % 2 ^ e
       let h := 2 ^ (e - 1)
-      let q1 := if h < r || (r == h && q % 2 == 1) then q + 1 else q
+      let q1 := if h < r ∨ (r = h ∧ q % 2 = 1) then q + 1 else q
       (1023 + k) * 2 ^ 52 + (q1 - 2 ^ 52)         -- q1 = 2^53 carries into the exponent field, as the hardware does
 
 /-- `static_cast<double>(int64_t)` -/
